@@ -8,6 +8,7 @@
     data here; Sizing (C08_quota) ties them to the ratios. *)
 From VF Require Import Base Iter Enc Lru LruStep TwoQ CacheStep BaseFacts LruFacts Counts PrimFacts
   Tactics TwoQFacts Run C01Proofs C08Proofs.
+From VF Require Import Sizing SizingFacts.
 
 Theorem C08_reachable : forall (size rs es : nat) (ops : list qop),
   (1 <= size)%nat -> (1 <= es)%nat ->
@@ -114,6 +115,19 @@ Theorem C08_ghost_revival_full : forall s k v old,
         end.
 Proof. exact put_ghost_hit_full. Qed.
 
+
+(** quota and ghost bound are floor(size x ratio) in binary64 arithmetic (Sizing.v, Flocq), and
+    lie within [0, size] resp. [1, size] for every accepted (size, recent ratio, ghost ratio) *)
+Theorem C08_quota : forall size rr gr rs es,
+  (1 <= size < 2 ^ 53)%Z -> ctor_twoq size rr gr = [0; size; rs; es]%Z ->
+  rs = f_floor_usize (f_mul (f_of_Z size) (f_of_bits rr)) /\
+  es = f_floor_usize (f_mul (f_of_Z size) (f_of_bits gr)) /\
+  (0 <= rs <= size)%Z /\ (1 <= es <= size)%Z.
+Proof. exact ctor_twoq_ok_bounds. Qed.
+
+Example C08_quota_witness : ctor_twoq 10 4599075939470750515 4602678819172646912 = [0; 10; 3; 5]%Z.
+Proof. vm_compute. reflexivity. Qed.
+
 (** non-vacuity: size 2, quota 0: the fall-back to the frequent queue when recent is empty *)
 Example C08_witness :
   qrun (twoq_new 2 0 1) [QTrait (CPut 1 1); QTrait (CPut 2 2); QTrait (CPut 1 11); QTrait (CPut 2 22); QTrait (CPut 3 3)]
@@ -130,3 +144,4 @@ Print Assumptions C08_get_miss.
 Print Assumptions C08_new_key_full.
 Print Assumptions C08_ghost_revival_room.
 Print Assumptions C08_ghost_revival_full.
+Print Assumptions C08_quota.
